@@ -43,7 +43,12 @@ def run(replay=None):
                 ck.case((tuple(t['kind']), e['kind'], e['created'], e['q']['fee'] >= 0, len(e['x']['ins']), sum(1 for o in e['x']['outs'] if o[2] == 0)))
         for iss in v['issues']:
             if iss['kind'] == 'rejected':
-                ck.violation(iss.get('dev') or None, 'clause %s; %s wallet seed=%d, event %d: %s | history: %s' % (
+                devs = [d for d in (iss.get('dev') or '').split('+') if d]
+                # every deviation needed for the explanation must be a listed finding; otherwise an unattributed violation
+                key = None if not devs or any(d not in ck.known for d in devs) else devs[0]
+                for d in devs[1:] if key else []:
+                    ck.known_hits.setdefault(d, {'n': 0, 'example': ''})['n'] += 1
+                ck.violation(key, 'clause %s; %s wallet seed=%d, event %d: %s | history: %s' % (
                     iss['why'], t['kind'], t['seed'], iss['at'], t['desc'][iss['at'] - 1][:500], ' ; '.join(x[:70] for x in t['desc'][:iss['at'] - 1])[:900]),
                     {'job': [job[0], list(job[1]), job[2]]})
     ck.count(0)
